@@ -23,6 +23,12 @@ def _is_pending(e):
 
 
 def check(cx):
+    _env_wrapped = True
+    from . import c03
+    return _check_own(cx) + c03.envelopes(cx, ID)
+
+
+def _check_own(cx):
     return i12(cx) + ([] if cx.control else i3(cx) + i4(cx) + i5(cx))
 
 
